@@ -1,5 +1,7 @@
 """C18 — mathvariant maps characters to the right Unicode math letters.
 Exhaustive over the finite table; oracle = Unicode Character Database (Python's unicodedata), no MathCAT code."""
+import os
+import random
 import time
 import unicodedata
 
@@ -195,6 +197,40 @@ def shard(spec):
     return st.to_dict()
 
 
+def miri_shard(spec):
+    """set_mathml of a sample of the table under Miri (Language=zz keeps rule loading feasible): constructing an invalid char at the
+    from_u32_unchecked site is reported as undefined behaviour by the interpreter itself; results must equal the native run's"""
+    st = core.Stats()
+    ops = [{"op": "set_rules_dir", "a": [core.RULES]}, {"op": "set_preference", "a": ["Language", "zz"]}, {"op": "set_preference", "a": ["TTS", "None"]}]
+    for (elem, style, text) in spec["cases"]:
+        ops.append({"op": "set_mathml", "a": [make_input(elem, style, text)]})
+    results, stderr, rc = core.run_miri(ops, timeout=spec["timeout"])
+    if rc is None:
+        st.inconclusive += 1
+        st.notes.append("miri shard timed out after %d s with %d results" % (spec["timeout"], len(results)))
+    if "Undefined Behavior" in stderr or (rc not in (0, None)):
+        n_done = max(0, len(results) - 3)
+        culprit = spec["cases"][n_done] if n_done < len(spec["cases"]) else spec["cases"][-1]
+        m = [l for l in stderr.splitlines() if "Undefined Behavior" in l or l.strip().startswith("-->")]
+        st.violations.append(core.violation("miri", "miri:%s" % ("undefined-behavior" if "Undefined Behavior" in stderr else "exit-%s" % rc),
+                                            {"elem": culprit[0], "style": culprit[1], "text": culprit[2], "flavour": "miri"},
+                                            "Miri stopped (rc=%s) at case %d %r: %s" % (rc, n_done, culprit, " | ".join(m[:4]) or stderr[-600:])))
+    with core.Driver("native") as d:
+        d.init({"TTS": "None", "Language": "zz"})
+        for (elem, style, text), r in zip(spec["cases"], results[3:]):
+            st.evaluations += 1
+            native = d.call("set_mathml", make_input(elem, style, text))
+            a = mml.strip_ids(r.get("v") or "") if r.get("r") == "ok" else r.get("r")
+            b = mml.strip_ids(native.get("v") or "") if native.get("r") == "ok" else native.get("r")
+            if a != b:
+                st.violations.append(core.violation("miri-differs", "miri-differs:%s" % style, {"elem": elem, "style": style, "text": text, "flavour": "miri"},
+                                                    "result under Miri differs from the native build for %s" % make_input(elem, style, text)))
+            else:
+                st.count("miri_results_equal_to_native")
+                st.nontrivial.add(core.h16("miri|%s|%s|%s" % (elem, style, text)))
+    return st.to_dict()
+
+
 def replay(witness):
     spec = {"cases": [(witness["elem"], witness["style"], witness["text"])], "flavour": witness.get("flavour", "native")}
     core.build_driver(spec["flavour"])
@@ -232,6 +268,16 @@ def run(tier, seed):
             1 for x in r if x for v in x.get("violations", []) if v["kind"] == "abort")}
         results.extend(r)
     extra["sanitizer_runs"] = san_report
+    if tier == "thorough" and os.environ.get("VERIF_NO_MIRI") != "1":
+        rng = random.Random(core.sub_seed(seed, PROP, "miri"))
+        pool = [c for c in all_cases if c[1] in MAPPED and c[0] in ("mi", "mn")]
+        sample = rng.sample(pool, min(len(pool), 320)) + [("mi", st_, "".join(LATIN)) for st_ in MAPPED] + [("mn", st_, "".join(DIGITS)) for st_ in MAPPED] + \
+                 [("mi", st_, "".join(GREEK + VARIANT_SYMBOLS + DIGAMMA)) for st_ in MAPPED]
+        n_miri = 8
+        mr = core.run_shards(miri_shard, [{"cases": sample[i::n_miri], "timeout": 3000} for i in range(n_miri)], procs=n_miri)
+        extra["miri"] = {"flags": "-Zmiri-disable-isolation -Zmiri-tree-borrows", "processes": n_miri, "cases": len(sample),
+                         "note": "Stacked Borrows is not used: it reports the aliasing discipline of the sxd-document dependency on the first XML parse"}
+        results.extend(mr)
     stats, errors = core.Stats.merge(results)
     known, fixed_failures, extra_v = core.replay_findings(PROP, replay)
     stats.violations.extend(extra_v)
